@@ -20,7 +20,8 @@ EXPLANATION = (
     "per-SCC index would corrupt later answers), and no in-package caller mutates a set returned by a substrate query (cached sets are "
     "returned by reference); (R3) the augmented graphs are frozen as the last step of construction and no graph mutator is called on them "
     "afterwards; the width caches are keyed by 'nothing ignored' (C09.R5); (R4) the four reachability tables of stDAG are dynamic programs whose neighbour direction (successors for 'from', predecessors for 'reaching'), "
-    "processing order (every neighbour final before it is read), seed (a node reaches itself; an edge table starts empty) and edge orientation agree with the query they answer, and the per-node queries of stDiGraph use descendants / ancestors of the condensation united with the node's own SCC.  NOT decided: that the answers equal a direct graph search, "
+    "processing order (every neighbour final before it is read), seed (a node reaches itself; an edge table starts empty) and edge orientation agree with the query they answer, and the per-node queries of stDiGraph use descendants / ancestors of the condensation united with the node's own SCC; (R5) the greedy peeling subtracts, on every edge of each peeled path of a private working copy, exactly the value it publishes as that path's weight, "
+    "and the bottleneck DP takes min(predecessor value, edge value), updates value and predecessor together and reports the value of the path it reconstructs.  NOT decided: that the answers equal a direct graph search, "
     "antichain maximality, peeling arithmetic."
 )
 DECIDED = ["caches are written only by their owner, keyed by the query", "queries have no side effect on shared substrate state; cached results are never mutated",
@@ -319,6 +320,144 @@ def dp_direction(prog: Program, rep, RID: str):
             raise AnalysisError(f"stDiGraph.{m}: primitive applied to `{norm(c.args[0])}` - not the condensation")
 
 
+def peeling_rule(prog: Program, rep, RID: str):
+    """Greedy bottleneck peeling: what is subtracted from the working copy along a path is exactly what is published as the weight
+    of that path, on every edge of it; the bottleneck DP takes min(incoming bottleneck, edge value), records the predecessor with
+    every improvement and reports the value of the very path it reconstructs."""
+    from sa.poly import to_poly
+    f = prog.own_method("stDAG", "decompose_using_max_bottleneck")
+    key = "stDAG.decompose_using_max_bottleneck"
+    A = f.node.args.args[1].arg
+    loops = [s for s in f.node.body if isinstance(s, ast.While)]
+    if len(loops) != 1:
+        raise AnalysisError(f"{key}: peeling loop not found")
+    lp = loops[0]
+    call = None
+    for s in lp.body:
+        if isinstance(s, ast.Assign) and isinstance(s.value, ast.Call) and (dotted(s.value.func) or "").endswith("max_bottleneck_path") and \
+                isinstance(s.targets[0], ast.Tuple) and len(s.targets[0].elts) == 2:
+            call = s
+    if call is None:
+        raise AnalysisError(f"{key}: call of max_bottleneck_path with (bottleneck, path) unpacking not found")
+    X, P = (e.id for e in call.targets[0].elts)
+    T = norm(call.value.args[0])
+    # working copy
+    tdefs = [s for s in f.node.body if isinstance(s, ast.Assign) and norm(s.targets[0]) == T]
+    if T == "self" or (tdefs and norm(tdefs[0].value) in ("self",)):
+        rep.violation(RID, key + ":copy", "the peeling subtracts from the graph object itself, not from a private copy", f.loc(call))
+    elif tdefs and re.fullmatch(r"nx\.DiGraph\(\)|self\.copy\(\)|nx\.DiGraph\(self\)|copy\.deepcopy\(self\)", norm(tdefs[0].value)):
+        rep.ok(RID, key + ":copy", f"works on the private graph `{T} = {norm(tdefs[0].value)}`", f.loc(tdefs[0]))
+    else:
+        raise AnalysisError(f"{key}: origin of the working graph `{T}` not recognised")
+    # exit test right after the call
+    idx = lp.body.index(call)
+    nxt = lp.body[idx + 1] if idx + 1 < len(lp.body) else None
+    if isinstance(nxt, ast.If) and norm(nxt.test) in (f"{P} is None", f"{X} is None") and any(isinstance(b, ast.Break) for b in nxt.body) or \
+            isinstance(nxt, ast.If) and any(isinstance(b, ast.Return) for b in nxt.body) and norm(nxt.test) in (f"{P} is None", f"{X} is None"):
+        rep.ok(RID, key + ":exit", "stops when no path with positive bottleneck is left", f.loc(nxt))
+    else:
+        raise AnalysisError(f"{key}: exit test after max_bottleneck_path not recognised")
+    # subtraction loop
+    subs = [s for s in lp.body if isinstance(s, ast.For)]
+    augs = [a for s in subs for a in ast.walk(s) if isinstance(a, ast.AugAssign)]
+    if len(subs) != 1 or len(augs) != 1 or not isinstance(subs[0].target, ast.Name):
+        raise AnalysisError(f"{key}: subtraction loop not recognised")
+    sl, aug = subs[0], augs[0]
+    I = sl.target.id
+    rng = sl.iter
+    ok_rng = isinstance(rng, ast.Call) and dotted(rng.func) == "range" and \
+        ((len(rng.args) == 1) or (len(rng.args) == 2 and norm(rng.args[0]) == "0"))
+    if not ok_rng:
+        raise AnalysisError(f"{key}: `{norm(rng)}` is not a range over the path positions")
+    n_edges = to_poly(rng.args[-1]) - (to_poly(ast.parse(f"len({P})", mode="eval").body) - to_poly(ast.Constant(1)))
+    if n_edges.const_value() == 0 and not sl.orelse and not any(isinstance(n, (ast.If, ast.Continue, ast.Break)) for n in ast.walk(sl)):
+        rep.ok(RID, key + ":all-edges", f"the subtraction visits all len({P}) - 1 edges of the path", f.loc(sl))
+    elif n_edges.const_value() is not None and n_edges.const_value() != 0:
+        rep.violation(RID, key + ":all-edges", f"`{norm(rng)}` visits {'fewer' if n_edges.const_value() < 0 else 'more'} than the len({P}) - 1 edges of the path: "
+                      "the remaining flow of the skipped edge is never reduced, so the published weights do not add up to the flow on it", f.loc(sl))
+    else:
+        rep.violation(RID, key + ":all-edges", "the subtraction along the path is conditional: some edges of a peeled path keep their flow", f.loc(sl))
+    tgt = norm(aug.target)
+    want_t = {f"{T}[{P}[{I}]][{P}[{I} + 1]][{A}]", f"{T}.edges[{P}[{I}], {P}[{I} + 1]][{A}]", f"{T}.edges[({P}[{I}], {P}[{I} + 1])][{A}]"}
+    if tgt in want_t and isinstance(aug.op, ast.Sub) and norm(aug.value) == X:
+        rep.ok(RID, key + ":amount", f"each edge ({P}[{I}], {P}[{I}+1]) loses exactly `{X}`, the value published as the weight", f.loc(aug))
+    elif tgt in want_t:
+        rep.violation(RID, key + ":amount", f"`{norm(aug)}`: the amount taken from the edge is not the bottleneck `{X}` that is published as the path's weight", f.loc(aug))
+    else:
+        raise AnalysisError(f"{key}: subtraction target `{tgt}` not recognised")
+    apps = {norm(c.func.value): norm(c.args[0]) for s in lp.body if isinstance(s, ast.Expr) and isinstance(s.value, ast.Call)
+            for c in [s.value] if isinstance(c.func, ast.Attribute) and c.func.attr == "append" and c.args}
+    ret = [r for r in f.node.body if isinstance(r, ast.Return)]
+    if sorted(apps.values()) == sorted([X, P]) and ret and isinstance(ret[-1].value, ast.Tuple) and \
+            [norm(e) for e in ret[-1].value.elts] == [k for k, v in sorted(apps.items(), key=lambda kv: kv[1] != P)]:
+        rep.ok(RID, key + ":publish", f"every peeled path is published once with its bottleneck; returned as (paths, weights)", f.loc(ret[-1]))
+    else:
+        rep.violation(RID, key + ":publish", f"path / weight bookkeeping of the peeling does not publish each peeled path with its bottleneck ({apps})", f.loc(lp))
+    # --- the DP
+    g = prog.function("flowpaths.utils.graphutils", "max_bottleneck_path")
+    key = "max_bottleneck_path"
+    G, A2 = g.node.args.args[0].arg, g.node.args.args[1].arg
+    outer = [s for s in g.node.body if isinstance(s, ast.For) and norm(s.iter) == f"nx.topological_sort({G})"]
+    if len(outer) != 1:
+        raise AnalysisError(f"{key}: loop in topological order not found")
+    V = outer[0].target.id
+    inner = [s for s in ast.walk(outer[0]) if isinstance(s, ast.For) and s is not outer[0]]
+    if len(inner) != 1 or norm(inner[0].iter) != f"{G}.predecessors({V})":
+        raise AnalysisError(f"{key}: predecessor loop not recognised")
+    U = inner[0].target.id
+    cand = [s for s in inner[0].body if isinstance(s, ast.Assign) and isinstance(s.value, ast.Call) and dotted(s.value.func) in ("min", "max")]
+    upd = [s for s in inner[0].body if isinstance(s, ast.If)]
+    if len(cand) != 1 or len(upd) != 1:
+        raise AnalysisError(f"{key}: recurrence not recognised")
+    c = cand[0]
+    Bn = None
+    m = re.fullmatch(r"(\w+)\[%s\]" % U, norm(c.value.args[0])) or re.fullmatch(r"(\w+)\[%s\]" % U, norm(c.value.args[1]))
+    if not m:
+        raise AnalysisError(f"{key}: recurrence operand not recognised in `{norm(c.value)}`")
+    Bn = m.group(1)
+    edge_val = {f"{G}.edges[{U}, {V}][{A2}]", f"{G}[{U}][{V}][{A2}]", f"{G}.edges[({U}, {V})][{A2}]"}
+    args = {norm(a) for a in c.value.args}
+    if dotted(c.value.func) == "min" and args & edge_val and f"{Bn}[{U}]" in args and len(args) == 2:
+        rep.ok(RID, key + ":recurrence", f"bottleneck through {U} = min({Bn}[{U}], value of the edge ({U},{V}))", g.loc(c))
+    else:
+        rep.violation(RID, key + ":recurrence", f"`{norm(c)}` is not min(bottleneck of the predecessor, value of the edge from it): the reported bottleneck can exceed an edge's "
+                      "remaining flow", g.loc(c))
+    C = norm(c.targets[0])
+    u = upd[0]
+    body = {norm(s) for s in u.body}
+    preds = [s for s in u.body if isinstance(s, ast.Assign) and norm(s.value) == U and re.fullmatch(r"\w+\[%s\]" % V, norm(s.targets[0]))]
+    if norm(u.test) in (f"{C} > {Bn}[{V}]", f"{Bn}[{V}] < {C}", f"{C} >= {Bn}[{V}]", f"{Bn}[{V}] <= {C}") and f"{Bn}[{V}] = {C}" in body and preds and not u.orelse:
+        rep.ok(RID, key + ":update", "value and predecessor are updated together on every improvement", g.loc(u))
+    else:
+        rep.violation(RID, key + ":update", f"`if {norm(u.test)}` does not update the value and the predecessor together on improvement ({sorted(body)}): the reconstructed path "
+                      "is not the one whose bottleneck is reported", g.loc(u))
+    preds_any = [s for s in ast.walk(inner[0]) if isinstance(s, ast.Assign) and norm(s.value) == U and re.fullmatch(r"\w+\[%s\]" % V, norm(s.targets[0]))]
+    Mn = norm(preds_any[0].targets[0]).split("[")[0] if preds_any else None
+    rets = [r for r in g.node.body if isinstance(r, ast.Return)]
+    whiles = [s for s in g.node.body if isinstance(s, ast.While)]
+    if not rets or not isinstance(rets[-1].value, ast.Tuple) or len(whiles) != 1 or Mn is None:
+        raise AnalysisError(f"{key}: path recovery not recognised")
+    r = rets[-1].value
+    m2 = re.fullmatch(r"%s\[(\w+)\]" % Bn, norm(r.elts[0]))
+    rp = [s for s in g.node.body if isinstance(s, ast.Assign) and isinstance(s.value, ast.List) and len(s.value.elts) == 1]
+    w = whiles[0]
+    wapp = [norm(s) for s in w.body]
+    if m2 and rp and norm(rp[-1].value.elts[0]) == m2.group(1):
+        R = norm(rp[-1].targets[0])
+        ok = norm(w.test) == f"{G}.in_degree({R}[-1]) > 0" and wapp == [f"{R}.append({Mn}[{R}[-1]])"] and norm(r.elts[1]) in (f"list(reversed({R}))", f"{R}[::-1]")
+        if ok:
+            rep.ok(RID, key + ":recover", f"the path is followed back from the sink whose value is returned, through the recorded predecessors, to a source", g.loc(w))
+        else:
+            rep.violation(RID, key + ":recover", f"path recovery `while {norm(w.test)}: {wapp}` -> `{norm(r.elts[1])}` does not follow the recorded predecessors from the reported sink back to a source", g.loc(w))
+    else:
+        rep.violation(RID, key + ":recover", f"the returned value `{norm(r.elts[0])}` is not the DP value of the sink the path is recovered from", g.loc(rets[-1]))
+    srcinit = [s for s in outer[0].body if isinstance(s, ast.If) and norm(s.test) == f"{G}.in_degree({V}) == 0"]
+    if srcinit and any(norm(s) == f"{Bn}[{V}] = float('inf')" for s in srcinit[0].body):
+        rep.ok(RID, key + ":source-init", "sources start with an infinite bottleneck", g.loc(srcinit[0]))
+    else:
+        rep.violation(RID, key + ":source-init", "sources are not initialised with float('inf') under `in_degree == 0`", g.loc(outer[0]))
+
+
 def check(prog: Program, rep):
     am = AliasModel(prog)
     rep.rule("C17.R1", "cache ownership", floor=9)
@@ -331,6 +470,8 @@ def check(prog: Program, rep):
     frozen_rule(prog, rep, "C17.R3")
     rep.rule("C17.R4", "reachability tables: direction, processing order, seed and edge orientation agree with the query", floor=16)
     dp_direction(prog, rep, "C17.R4")
+    rep.rule("C17.R5", "bottleneck peeling: subtracted amount == published weight on every edge of the path; DP recurrence and path recovery", floor=9)
+    peeling_rule(prog, rep, "C17.R5")
     from rules.c09 import width_cache
     rep.rule("C17.R3b", "width cache key", floor=4)
     width_cache(prog, rep, "C17.R3b")
